@@ -104,6 +104,22 @@ def c18_seq(start, owner, ops):
                 exp_exc = IndexError
         elif name == 'slice':
             exp_ret = m2[op[1]:op[2]]
+        elif name == 'slice3':
+            exp_ret = m2[op[1]:op[2]:op[3]]
+        elif name == 'extendgen':
+            m2.extend([pool[k] for k in op[1]])
+        elif name == 'setitem':
+            i = idx(op[1], len(m))
+            if -len(m) <= i < len(m):
+                m2[i] = pool[op[2]]
+            else:
+                exp_exc = IndexError
+        elif name == 'delitem':
+            i = idx(op[1], len(m))
+            if -len(m) <= i < len(m):
+                del m2[i]
+            else:
+                exp_exc = IndexError
         else:
             raise AssertionError(op)
         # ---------------- real
@@ -127,6 +143,14 @@ def c18_seq(start, owner, ops):
                 ret = args[idx(op[1], len(m))]
             elif name == 'slice':
                 ret = args[op[1]:op[2]]
+            elif name == 'slice3':
+                ret = args[op[1]:op[2]:op[3]]
+            elif name == 'extendgen':
+                args.extend((pool[k] for k in op[1]))
+            elif name == 'setitem':
+                args[idx(op[1], len(m))] = pool[op[2]]
+            elif name == 'delitem':
+                del args[idx(op[1], len(m))]
         except Exception as e:
             got_exc = e
         if got_exc is not None or exp_exc is not None:
@@ -139,7 +163,7 @@ def c18_seq(start, owner, ops):
         if name == 'pop' or name == 'getitem':
             if exp_exc is None:
                 SX.check(ret is exp_ret, tag + ':returns-that-element', det)
-        if name == 'slice':
+        if name == 'slice' or name == 'slice3':
             SX.check(isinstance(ret, TexArgs) and len(ret) == len(exp_ret) and all([a is b for a, b in zip(ret, exp_ret)]),
                      tag + ':returns-arglist', det)
         m = m2
